@@ -1,0 +1,133 @@
+//go:build verif
+
+package queue
+
+// Contracts for the verification framework in /verif (comment-only file, build tag `verif`).
+// Syntax: /verif/DESIGN.md section 3.4. Nothing in this file is compiled.
+
+//@ pure task.Task.GetId
+//@ pure task.Task.GetType
+
+//@ pred NoNil(s []task.Task) := forall(j, 0, len(s), s[j] != nil)
+
+// index of the first task with the given id, -1 when there is none
+//@ specfn firstIdx(s []task.Task, id string) int
+//@   axiom -1 <= result && result < len(s)
+//@   axiom result >= 0 ==> s[result].GetId() == id
+//@   axiom forall(j, 0, ite(result >= 0, result, len(s)), s[j].GetId() != id)
+
+//@ lock (*TaskQueue).m
+//@   recv q
+//@   protects items
+//@   invariant NoNil(q.items)
+
+//@ inline (*TaskQueue).withLock
+//@ inline (*TaskQueue).withRLock
+//@ inline (*TaskQueue).isEmpty
+
+// MeasureActionTime only touches the metric helper fields.
+//@ trusted func (*TaskQueue).MeasureActionTime
+//@   modifies q.measureActionFn
+
+//@ func (*TaskQueue).addFirst
+//@   prop C05
+//@   requires t != nil && NoNil(q.items)
+//@   modifies q.items
+//@   ensures [len]   len(q.items) == len(old(q.items)) + 1
+//@   ensures [head]  q.items[0] == t
+//@   ensures [rest]  forall(j, 1, len(q.items), q.items[j] == old(q.items)[j-1])
+//@   ensures [nonil] NoNil(q.items)
+
+//@ func (*TaskQueue).addLast
+//@   prop C05
+//@   requires t != nil && NoNil(q.items)
+//@   modifies q.items, elems(q.items)
+//@   ensures [len]   len(q.items) == len(old(q.items)) + 1
+//@   ensures [tail]  q.items[len(q.items)-1] == t
+//@   ensures [rest]  forall(j, 0, len(old(q.items)), q.items[j] == old(q.items)[j])
+//@   ensures [nonil] NoNil(q.items)
+
+//@ func (*TaskQueue).removeFirst
+//@   prop C05
+//@   requires NoNil(q.items)
+//@   modifies q.items
+//@   let n := old(len(q.items))
+//@   ensures [empty] n == 0 ==> result == nil && len(q.items) == 0
+//@   ensures [head]  n > 0 ==> result == old(q.items[0]) && len(q.items) == n - 1
+//@   ensures [rest]  n > 0 ==> forall(j, 0, n-1, q.items[j] == old(q.items)[j+1])
+//@   ensures [nonil] NoNil(q.items)
+
+//@ func (*TaskQueue).removeLast
+//@   prop C05
+//@   requires NoNil(q.items)
+//@   modifies q.items
+//@   let n := old(len(q.items))
+//@   ensures [empty] n == 0 ==> result == nil && len(q.items) == 0
+//@   ensures [last]  n > 0 ==> result == old(q.items[len(q.items)-1]) && len(q.items) == n - 1
+//@   ensures [rest]  n > 0 ==> forall(j, 0, n-1, q.items[j] == old(q.items)[j])
+//@   ensures [nonil] NoNil(q.items)
+//@   ensures [not-nil-slice] q.items != nil || old(q.items) == nil
+
+//@ func (*TaskQueue).getLast
+//@   prop C05
+//@   modifies nothing
+//@   ensures len(q.items) == 0 ==> result == nil
+//@   ensures len(q.items) > 0 ==> result == q.items[len(q.items)-1]
+
+//@ func (*TaskQueue).get
+//@   prop C05
+//@   modifies nothing
+//@   let k := firstIdx(q.items, id)
+//@   ensures [absent] k < 0 ==> result == nil
+//@   ensures [found]  k >= 0 ==> result == q.items[k]
+//@   loop 1
+//@     invariant 0 <= iter() && iter() <= len(q.items)
+//@     invariant forall(j, 0, iter(), q.items[j].GetId() != id)
+
+//@ func (*TaskQueue).addAfter
+//@   prop C05
+//@   requires newTask != nil && NoNil(q.items)
+//@   modifies q.items
+//@   let k := old(firstIdx(q.items, id))
+//@   let n := old(len(q.items))
+//@   ensures [found]  k >= 0 ==> len(q.items) == n + 1 && forall(j, 0, k+1, q.items[j] == old(q.items)[j])
+//@        && q.items[k+1] == newTask && forall(j, k+2, n+1, q.items[j] == old(q.items)[j-1])
+//@   ensures [absent] k < 0 ==> sameseq(q.items, old(q.items))
+//@   ensures [nonil]  NoNil(q.items)
+//@   loop 1
+//@     invariant 0 <= iter() && iter() <= n
+//@     invariant idFound == (k >= 0 && k < iter())
+//@     invariant !idFound ==> forall(j, 0, iter(), newItems[j] == old(q.items)[j])
+//@     invariant idFound ==> forall(j, 0, k+1, newItems[j] == old(q.items)[j]) && newItems[k+1] == newTask
+//@        && forall(j, k+2, iter()+1, newItems[j] == old(q.items)[j-1])
+
+//@ func (*TaskQueue).addBefore
+//@   prop C05
+//@   requires newTask != nil && NoNil(q.items)
+//@   modifies q.items
+//@   let k := old(firstIdx(q.items, id))
+//@   let n := old(len(q.items))
+//@   ensures [found]  k >= 0 ==> len(q.items) == n + 1 && forall(j, 0, k, q.items[j] == old(q.items)[j])
+//@        && q.items[k] == newTask && forall(j, k+1, n+1, q.items[j] == old(q.items)[j-1])
+//@   ensures [absent] k < 0 ==> sameseq(q.items, old(q.items))
+//@   ensures [nonil]  NoNil(q.items)
+//@   loop 1
+//@     invariant 0 <= iter() && iter() <= n
+//@     invariant idFound == (k >= 0 && k < iter())
+//@     invariant !idFound ==> forall(j, 0, iter(), newItems[j] == old(q.items)[j])
+//@     invariant idFound ==> forall(j, 0, k, newItems[j] == old(q.items)[j]) && newItems[k] == newTask
+//@        && forall(j, k+1, iter()+1, newItems[j] == old(q.items)[j-1])
+
+//@ func (*TaskQueue).remove
+//@   prop C05
+//@   requires NoNil(q.items)
+//@   modifies q.items, elems(q.items)
+//@   let k := old(firstIdx(q.items, id))
+//@   let n := old(len(q.items))
+//@   ensures [absent] k < 0 ==> result == nil && sameseq(q.items, old(q.items))
+//@   ensures [found]  k >= 0 ==> result == old(q.items[k]) && len(q.items) == n - 1
+//@        && forall(j, 0, k, q.items[j] == old(q.items)[j]) && forall(j, k, n-1, q.items[j] == old(q.items)[j+1])
+//@   ensures [nonil]  NoNil(q.items)
+//@   loop 1
+//@     invariant 0 <= iter() && iter() <= n
+//@     invariant forall(j, 0, iter(), q.items[j].GetId() != id)
